@@ -134,6 +134,20 @@ theorem autoMatchesDump_all : allShapes.all autoMatchesDump = true := by decide 
 
 theorem autoSufficient_all : allShapes.all autoSufficient = true := by decide +kernel
 
+/-- every generated factory advertises a non-empty range (fixed-size rules: min = max = number of points) -/
+theorem factoryRanges_all :
+    (allShapes.all fun s => (Gen.factoriesOf s).all fun f => decide (f.minP ≤ f.maxP)) = true := by decide +kernel
+
+/-- an accepted spelling carries a count inside the factory's range -/
+theorem Factory.Spells.range {f : Factory} {name : Str} {n : Nat} (h : f.Spells name n) (hf : f.minP ≤ f.maxP) :
+    f.minP ≤ n ∧ n ≤ f.maxP := by
+  unfold Factory.Spells at h
+  split at h
+  · obtain ⟨_, _, _, _, _, h1, h2⟩ := h
+    exact ⟨h1, h2⟩
+  · obtain ⟨_, rfl⟩ := h
+    exact ⟨Nat.le_refl _, hf⟩
+
 theorem mem_allShapes (s : Shape) : s ∈ allShapes := by cases s <;> simp [allShapes]
 
 end FeatModel.Cub
